@@ -237,6 +237,7 @@ where
                 .stack_size(STACK)
                 .spawn_scoped(sc, move || {
                     crate::world::install_hooks();
+                    crate::allocguard::set_active(true);
                     let mut cfg = Config::default();
                     cfg.cases = per as u32;
                     cfg.failure_persistence = None;
@@ -316,6 +317,7 @@ where
                 .stack_size(STACK)
                 .spawn_scoped(sc, move || {
                     crate::world::install_hooks();
+                    crate::allocguard::set_active(true);
                     let mut st = Stats::default();
                     loop {
                         let i = next.fetch_add(1, Ordering::Relaxed);
